@@ -80,6 +80,17 @@ Proof.
   intros x Hx. apply Hp. right. exact Hx.
 Qed.
 
+Lemma dedup_acc_NoDup {T} `{EqB T} (l : list T) : forall acc, NoDup (acc ++ l) -> dedup_acc acc l = acc ++ l.
+Proof.
+  induction l as [|x t IH]; intros acc Hnd; cbn [dedup_acc]; [rewrite app_nil_r; reflexivity|].
+  assert (Hx : mem x acc = false).
+  { apply mem_false. intros Hin. apply NoDup_remove_2 in Hnd. apply Hnd. apply in_or_app. left. exact Hin. }
+  rewrite Hx. rewrite IH; [rewrite <- app_assoc; reflexivity|]. rewrite <- app_assoc. exact Hnd.
+Qed.
+
+Lemma dedup_NoDup_id {T} `{EqB T} (l : list T) : NoDup l -> dedup l = l.
+Proof. intros Hnd. unfold dedup. apply (dedup_acc_NoDup l []). exact Hnd. Qed.
+
 Section SumSimp.
   Variable m : model.
   Hypothesis Hlaw : lawful m.
@@ -185,6 +196,21 @@ Section SumSimp.
           intros Hb. apply Hnc. apply V_in_bases. exact Hb.
     Qed.
 
+    Lemma guards_do_not_fire :
+      negb false && (negb (Nat.eqb (List.length bases) (List.length ch)) || existsb (iv_in_ranges rs) ch) = false.
+    Proof.
+      destruct ch_facts as [_ [Hs Hn]]. cbn [negb andb]. apply orb_false_iff. split.
+      - apply negb_false_iff. apply Nat.eqb_eq. unfold bases.
+        assert (Hgb : NoDup (map get_base ch)).
+        { unfold names in Hn. clear - Hn. induction ch as [|c t IH]; [constructor|]. cbn [map] in *. inversion Hn as [|? ? Hc Ht]; subst.
+          constructor; [|apply IH; exact Ht]. intros Hin. apply Hc. apply in_map_iff in Hin. destruct Hin as [c' [E Hc']].
+          unfold get_base in E. injection E as E. rewrite <- E. apply in_map. exact Hc'. }
+        rewrite (dedup_NoDup_id _ Hgb). apply map_length.
+      - destruct (existsb (iv_in_ranges rs) ch) eqn:Ee; [|reflexivity]. apply existsb_exists in Ee. destruct Ee as [c [Hc Hi]].
+        rewrite forallb_forall in Hs. specialize (Hs c Hc). unfold simple_var in Hs. apply andb_true_iff in Hs. destruct Hs as [Hk _].
+        apply eqb_true in Hk. unfold iv_in_ranges in Hi. rewrite Hk in Hi. discriminate.
+    Qed.
+
     Lemma joint_eval r : eval m (EProb pop ch []) r == joint m pop ch r.
     Proof. destruct ch_facts as [Hne _]. destruct ch; [congruence|reflexivity]. Qed.
 
@@ -203,6 +229,7 @@ Section SumSimp.
       eval m (sum_simplify (EProb pop ch []) rs) r == sum_over m (names rs) (eval m (EProb pop ch [])) r.
     Proof.
       intros Hne. rewrite sum_joint. unfold sum_simplify in *. cbn [sum_simplify_gen] in *. fold bases in Hne |- *. fold child_of in Hne |- *.
+      rewrite guards_do_not_fire in *.
       destruct (set_eqb rs bases) eqn:E1.
       { (* every child is summed and nothing else *)
         apply set_eqb_equiv in E1.
